@@ -150,10 +150,30 @@ impl Prop for C16 {
                 let len = if close_loop { need.unwrap() } else { choose_len(&mut rng, need) };
                 id += 1;
                 let tx = Tx { id, kind: TxKind::Call { sender, target: target.clone(), by_inscription: false, data: data.clone() }, len: LenPolicy::Exact(len), enc: Enc::Hex };
-                let uni0 = w.uni.clone();
-                let before = obs::observe(&mut w.inst, &uni0, Depth::Getters);
                 let ts = 1_000_000 + id as u64;
                 w.op_index = base + 1 + k as usize;
+                // sometimes another transaction of the same block burns its whole (possibly saturated) allowance
+                // first: the allowance of a transaction must not depend on its neighbours
+                if rng.chance(1, 3) {
+                    let plen = *rng.pick(&[u64::MAX, u64::MAX / GAS_PER_BYTE + 1, 2000, 3]);
+                    let pre = Tx {
+                        id: id + 500_000,
+                        kind: TxKind::Call { sender: (sender + 1) % N_PK, target: target.clone(), by_inscription: false, data: Cd::Invalid },
+                        len: LenPolicy::Exact(plen),
+                        enc: Enc::Hex,
+                    };
+                    let pr = w.exec_tx(crate::world::BASE_TS + ts, &HashMode::Zero, &pre);
+                    if let Resp::Ok(v) = &pr {
+                        let pu = hex_u64(&v["gasUsed"]).unwrap_or(u64::MAX);
+                        if pu > plen.saturating_mul(GAS_PER_BYTE) {
+                            violation = Some(Violation::new("gas-used-exceeds-allowance", json!({"probe": k, "prelude": true, "inscription_byte_len": plen, "gasUsed": pu})));
+                            break 'probes;
+                        }
+                        w.stats.bump("probe_block_with_allowance_burning_neighbour");
+                    }
+                }
+                let uni0 = w.uni.clone();
+                let before = obs::observe(&mut w.inst, &uni0, Depth::Getters);
                 let r = w.exec_tx(crate::world::BASE_TS + ts, &HashMode::Zero, &tx);
                 let receipt = match &r {
                     Resp::Ok(v) => v.clone(),
@@ -214,6 +234,64 @@ impl Prop for C16 {
                     }
                     closed = true;
                     w.stats.bump("probe_estimate_loop_closed");
+                }
+            }
+        }
+        // parked signed transactions keep their own allowance when they are drained by a later call
+        if violation.is_none() && w.height.is_some() && w.open.is_none() {
+            let stores: Vec<String> = w.book.contracts.iter().filter(|c| c.kind == "store").map(|c| c.addr.clone()).collect();
+            for round in 0..2u32 {
+                if stores.is_empty() {
+                    break;
+                }
+                let sg = rng.below(crate::world::N_SIGNERS as u64) as u8;
+                let target = Target::Addr(rng.pick(&stores).clone());
+                let iters = rng.range(200, 5000) as u16;
+                let data = Cd::Burn(iters);
+                // what the parked call needs
+                let call = w.eth_call_obj(&Who::Signer(sg), &Some(target.clone()), &data, &None);
+                let need = match w.inst.call("eth_estimateGas", json!([call])) {
+                    Resp::Ok(v) => hex_u64(&v).map(|e| e.div_ceil(GAS_PER_BYTE)),
+                    _ => None,
+                };
+                let Some(need) = need else { continue };
+                let own_len = match rng.below(4) {
+                    0 => need.saturating_sub(2).max(1),
+                    1 => need.saturating_sub(1).max(1),
+                    2 => need,
+                    _ => need + 1,
+                };
+                id += 2;
+                let parked = Tx { id, kind: TxKind::Transact { signer: sg, nonce: NonceSpec::Rel(1), to: Some(target.clone()), data: data.clone(), deploy: None, chain_ok: true }, len: LenPolicy::Exact(own_len), enc: Enc::Hex };
+                let filler = Tx { id: id + 1, kind: TxKind::Transact { signer: sg, nonce: NonceSpec::Rel(0), to: Some(target.clone()), data: Cd::Sload(1), deploy: None, chain_ok: true }, len: LenPolicy::Generous, enc: Enc::Hex };
+                let ts = crate::world::BASE_TS + 3_000_000 + id as u64;
+                w.op_index = base + 100 + round as usize;
+                let r1 = w.exec_tx(ts, &HashMode::Zero, &parked);
+                if !matches!(&r1, Resp::Ok(v) if v.as_array().map(|a| a.is_empty()).unwrap_or(false)) {
+                    let _ = w.finalise(ts, &HashMode::Zero);
+                    continue;
+                }
+                let r2 = w.exec_tx(ts, &HashMode::Zero, &filler);
+                let _ = w.finalise(ts, &HashMode::Zero);
+                let Resp::Ok(Value::Array(rcs)) = &r2 else { continue };
+                if rcs.len() != 2 {
+                    continue;
+                }
+                let drained = &rcs[1];
+                let used = hex_u64(&drained["gasUsed"]).unwrap_or(u64::MAX);
+                let ok = hex_u64(&drained["status"]) == Some(1);
+                w.stats.bump("probe_drained_tx_allowance_checked");
+                if used > own_len.saturating_mul(GAS_PER_BYTE) {
+                    violation = Some(Violation::new("drained-tx-exceeds-its-own-allowance", json!({"own_inscription_byte_len": own_len, "allowance": own_len * GAS_PER_BYTE, "gasUsed": used, "filler_inscription_byte_len": 2000, "receipt": trunc(drained)})));
+                    break;
+                }
+                if own_len >= need && !ok {
+                    violation = Some(Violation::new("drained-tx-with-sufficient-allowance-failed", json!({"own_inscription_byte_len": own_len, "needed_bytes": need, "receipt": trunc(drained)})));
+                    break;
+                }
+                if own_len + 1 < need && ok {
+                    violation = Some(Violation::new("drained-tx-succeeded-beyond-its-allowance", json!({"own_inscription_byte_len": own_len, "needed_bytes": need, "receipt": trunc(drained)})));
+                    break;
                 }
             }
         }
